@@ -89,16 +89,16 @@ type Machine struct {
 	mapRaces     map[*Map]*mapRaceState
 	raceReported bool
 	selChoices   int // select statements resolved to a ready case other than the first
-	opaqueN int
+	opaqueN      int
 
-	instrs     int64
-	callDepth  int
-	funcsSeen  map[*ssa.Function]bool
-	stubsUsed  map[string]bool
-	timeVarSeq int
-	lastNow    *term.T
+	instrs      int64
+	callDepth   int
+	funcsSeen   map[*ssa.Function]bool
+	stubsUsed   map[string]bool
+	timeVarSeq  int
+	lastNow     *term.T
 	preemptions int
-	expl       *Explorer
+	expl        *Explorer
 }
 
 func (m *Machine) get(fr *frame, key ssa.Value) Value {
